@@ -116,6 +116,15 @@ Definition scope_check (c : circuit) (s : list nat) : nat := b2n (seqb (cscope c
 Definition learn_subset (c : circuit) (ops : list circuit) : nat :=
   b2n (ssubset (learnable_ids c) (canon (flat_map learnable_ids ops))).
 
+(* parameter expressions vs externally supplied tensors *)
+Fixpoint tflat (t : tn) : cvec :=
+  match t with Tensor.S c => [c] | Tensor.T l => flat_map tflat l end.
+Definition pcmp (e : pexpr) (t : tn) : nat :=
+  match peval e with
+  | Some v => if list_eqb (tshape_of v) (tshape_of t) && tregular v then b2n (mclose [tflat v] [tflat t]) else 0
+  | None => 2
+  end.
+
 (* constructors the generated files use *)
 Definition q (n : Z) (d : positive) : C := cre (Q2Qc (n # d)).
 Definition qc (n : Z) (d : positive) (n' : Z) (d' : positive) : C := (Q2Qc (n # d), Q2Qc (n' # d')).
